@@ -60,13 +60,45 @@ def gen_specs(ctx, count):
             spec.rate = rng.choice([1, 2, 3, 4, 7]) / m
             spec.adapter_wildcards = False
             spec.min_overlap = rng.choice([3, 10, m])
+        elif rng.random() < 0.04:
+            # adapters longer than one machine word of the k-mer finder (64) with few allowed errors: k-mers of more than 32 characters,
+            # which cannot share a word
+            m = rng.randint(70, 120)
+            spec.seq = U.rand_seq(rng, m, "ACGT")
+            spec.rate = rng.choice([1, 2, 2, 3]) / m
+            spec.adapter_wildcards = False
+            spec.min_overlap = rng.choice([3, 20])
         out.append(spec)
+    return out
+
+
+def chunk_damaged_copies(rng, seq, k):
+    """copies of seq with one substitution in every one of the k+1 k-mer chunks but one (each chunk in turn is the intact one)"""
+    chunks = k + 1
+    size, rem = divmod(len(seq), chunks)
+    bounds, pos = [], 0
+    for i in range(chunks):
+        ln = size + (1 if i < rem else 0)
+        bounds.append((pos, pos + ln))
+        pos += ln
+    out = []
+    for intact in range(chunks):
+        s = list(seq)
+        for i, (a, b) in enumerate(bounds):
+            if i != intact and b > a:
+                p_ = rng.randrange(a, b)
+                s[p_] = rng.choice([c for c in "ACGT" if c != s[p_]])
+        out.append("".join(s))
     return out
 
 
 def reads_for(rng, spec, seq, count):
     reads = []
     m = len(seq)
+    if m > 64:
+        # the occurrence sits far from both read ends, so that only the k-mers of the whole adapter can let the read through
+        for cp in chunk_damaged_copies(rng, seq, int(spec.rate * m)):
+            reads.append(U.rand_seq(rng, rng.randint(45, 70), "ACGT") + cp + U.rand_seq(rng, rng.randint(45, 70), "ACGT"))
     for _ in range(count):
         mode = rng.random()
         if mode < 0.5:
@@ -156,8 +188,19 @@ def check(ctx):
     kp_lines, kp_impl, kp_meta = [], [], []
     kp2_lines = []
     mt_lines, mt_impl, mt_meta = [], [], []
-    for spec, reads in groups:
+    ncorpus = ctx.notes.get("corpus_cases", 0)
+    for gi, (spec, reads) in enumerate(groups):
+        twin_built = False
         try:
+            if gi < ncorpus or rng.random() < 0.3:
+                twin_built = True
+                # the same adapter with the opposite indel setting is built first in this process: whatever is kept between
+                # adapters (caches of finders, tables) must not carry over what depends on that setting
+                twin = U.AdSpec.from_json(dict(spec.to_json(), indels=not spec.indels))
+                try:
+                    twin.build()
+                except Exception:
+                    pass
             ad = spec.build()
             mock = spec.build(mock_prefilter=True)
         except Exception:
@@ -201,7 +244,7 @@ def check(ctx):
                 cls = "%s indels=%s read_shorter=%s" % (spec.typ, ad.indels, len(r) < len(seq))
                 ctx.violation("prefilter changes the result: " + cls,
                               {"adapter": spec.to_json(), "read": r, "with_prefilter": U.match_tuple(real), "without": U.match_tuple(nofilter),
-                               "reproduce": "cd /verif && ./check replay <this file>"})
+                               "twin_first": twin_built, "reproduce": "cd /verif && ./check replay <this file>"})
             if pickled is not None and U.match_tuple(pickled.match_to(r)) != U.match_tuple(nofilter):
                 ctx.violation("prefilter of a pickled adapter changes the result: %s" % spec.typ,
                               {"adapter": spec.to_json(), "read": r, "with_prefilter_after_pickle": U.match_tuple(pickled.match_to(r)), "without": U.match_tuple(nofilter),
@@ -265,6 +308,12 @@ def replay(doc):
         print(r)
         return 0
     spec = U.AdSpec.from_json(r["adapter"])
+    if r.get("twin_first"):
+        # the run built the same adapter with the opposite indel setting first (state kept between adapters)
+        try:
+            U.AdSpec.from_json(dict(spec.to_json(), indels=not spec.indels)).build()
+        except Exception:
+            pass
     a, b = spec.build().match_to(r["read"]), spec.build(mock_prefilter=True).match_to(r["read"])
     print("adapter", r["adapter"], "read", r["read"], "with prefilter:", U.match_tuple(a), "without:", U.match_tuple(b))
     return 1 if U.match_tuple(a) != U.match_tuple(b) else 0
